@@ -47,6 +47,17 @@ def _simple_name(call):
     return d.split(".")[-1] if d else None
 
 
+def _opaque_codec(wc, name, prefix):
+    """A codec of src/serialization.py that is not one of the modelled primitives: an opaque wire unit named after it.
+    Writer and reader must use the same-named codec at the same position; its inside is Z2's business."""
+    if not name or not name.startswith(prefix):
+        return None
+    ser = wc.prog.module("src/serialization.py")
+    if name in ser.functions and name not in PRIMS_W and name not in PRIMS_R:
+        return name[len(prefix):]
+    return None
+
+
 def _func_ref_op(wc, node, writing):
     """Op for a function reference passed to write_list/read_list (write_string, X.serialize...)."""
     d = dotted(node)
@@ -113,12 +124,12 @@ def writer_ops(wc, func):
                 if inner:
                     seq.append((("rep", tuple(o for o, _f, _n in inner)), _field_of_expr(st.iter), st))
             elif isinstance(st, (ast.If, ast.While, ast.With, ast.Try)):
-                if any(isinstance(n, ast.Call) and _simple_name(n) in PRIMS_W for n in walk_no_nested(st)):
+                if any(isinstance(n, ast.Call) and (_simple_name(n) in PRIMS_W or _opaque_codec(wc, _simple_name(n), "write_")) for n in walk_no_nested(st)):
                     raise AnalysisError("writer %s has conditional serialisation at line %d (unsupported shape)"
                                         % (func._qualname, st.lineno))
             else:
                 for n in walk_no_nested(st):
-                    if isinstance(n, ast.Call) and _simple_name(n) in PRIMS_W:
+                    if isinstance(n, ast.Call) and (_simple_name(n) in PRIMS_W or _opaque_codec(wc, _simple_name(n), "write_")):
                         raise AnalysisError("writer %s: codec call in unsupported statement at line %d"
                                             % (func._qualname, st.lineno))
         return seq
@@ -151,6 +162,9 @@ def writer_ops(wc, func):
             return [(("pairs", _func_ref_op(wc, a[2], True)), _field_of_expr(a[0]), c)]
         if name == "serialize" and isinstance(c.func, ast.Attribute):
             return [(("obj", "?"), _field_of_expr(c.func.value), c)]
+        oc = _opaque_codec(wc, name, "write_")
+        if oc and a:
+            return [(("codec", oc), _field_of_expr(a[0]), c)]
         return []
 
     seq = stmt_ops(func.body)
@@ -236,6 +250,9 @@ def reader_ops(wc, func):
         if name in ("deserialize", "deserialize_from_read_assignment") and isinstance(c.func, ast.Attribute):
             d = dotted(c.func)
             return ("obj", d.split(".")[-2] if d and "." in d else "?")
+        oc = _opaque_codec(wc, name, "read_")
+        if oc:
+            return ("codec", oc)
         return None
 
     def name_reads(value, base):
@@ -365,6 +382,8 @@ def fmt(op):
             return "bools[%d]" % op[1]
         if op[0] == "obj":
             return "obj:%s" % op[1]
+        if op[0] == "codec":
+            return "codec:%s" % op[1]
         return op[0]
     if isinstance(op, tuple):
         return "(" + ",".join(fmt(o) for o in op) + ")"
